@@ -220,6 +220,7 @@ RULES = [
     ("C01-R8", "every search root is walked: a failing root is not skipped before the walker counts it [shared with C01]", lambda ctx: __import__("c01").r8(ctx)),
     ("C19-R1", "archive member loop: every member is visited, a member that cannot be opened is skipped alone [shared with C19]", lambda ctx: __import__("c19").r1(ctx)),
     ("C05-R1", "sort keys: the comparison of two buffer keys is a consistent order also for empty values of unreadable entries (an inconsistent one makes the ordered buffer panic) [shared with C05]", lambda ctx: __import__("c05").r1(ctx)),
+    ("C01-R5", "the gate in front of every descent refuses a directory only for a reviewed reason (link without the option, seen before): a directory that cannot be stat'ed is tried or counted, never dropped silently [shared with C01]", lambda ctx: __import__("c01").r5(ctx)),
 ]
 
 EXPLANATION = (
